@@ -1201,7 +1201,7 @@ func searchA(cfgs []*CfgA, deadline time.Time, nworkers int) []*resultA {
 	}
 	out := make([]*resultA, len(runs))
 	for ci, r := range runs {
-		if capped {
+		if capped && r.res.MaxLevel < r.c.Horizon {
 			r.res.Exhaustive = false
 		}
 		// witnesses: the first and the last state (by key) of the final frontier
